@@ -6,14 +6,13 @@ start (cold / warm) and the configuration itself, so each sentence is decided
 for every entry point.  Oracles are validity predicates recomputed in float64
 numpy (vf/ref_cluster.py) - never the library's own distance kernels.
 """
-import copy
 import itertools
 import logging
 
 import numpy as np
 from hypothesis import strategies as st
 
-from vf.harness import Clause, Info, require, Violation
+from vf.harness import Clause, Info, require
 from vf import ref_cluster as rc
 
 from enspara.cluster import kcenters as kc_mod
